@@ -49,6 +49,32 @@ def impl_reader(text, widths, ld):
     return "ok " + ";".join(",".join(enc(c) for c in r) for r in rows)
 
 
+def impl_path(text, widths, ld):
+    """the same characters stored in a file (no newline translation when writing) and read through its path"""
+    import os
+    import shutil
+    import tempfile
+    from cutplace import errors, rowio
+
+    fields = [("f%d" % i, w) for i, w in enumerate(widths)]
+    tmp_dir = tempfile.mkdtemp(prefix="c13-")
+    try:
+        path = os.path.join(tmp_dir, "data.txt")
+        with open(path, "w", encoding="utf-8", newline="") as f:
+            f.write(text)
+        try:
+            rows = list(rowio.fixed_rows(path, "utf-8", fields, LDS[ld]))
+        except errors.DataFormatError:
+            return "error"
+        except Exception as error:  # noqa
+            return "!" + core.classify_exception(error)
+    finally:
+        shutil.rmtree(tmp_dir, ignore_errors=True)
+    if not rows:
+        return "ok ~"
+    return "ok " + ";".join(",".join(enc(c) for c in r) for r in rows)
+
+
 def _impl_chunk(args):
     core.import_cutplace()
     return [impl_fixed(t, w, l) for t, w, l in args]
@@ -134,13 +160,18 @@ def run(ctx):
             ctx.machinery_error("model != spec (refuted theorem C13_model_eq_spec?): %r" % case)
         if io_ != s:
             ctx.violation(classify(ld, io_, s, text), "fixed_rows(%r, widths=%r, %s): implementation %s, grammar %s" % (text, list(ws), ld, io_, s), case)
-        elif zlib.crc32(repr((text, ws, ld)).encode("utf-8")) % (97 if ctx.tier == "quick" else 29) == 0:
+        elif zlib.crc32(repr((text, ws, ld)).encode("utf-8")) % (61 if ctx.tier == "quick" else 29) == 0:
             # a sample of the cases also through cutplace's validating reader, which hands the CID's settings to fixed_rows
             ir = impl_reader(text, ws, ld)
             ctx.count(key=("reader", text, ws, ld), nontrivial=text != "", branch="reader:%s" % ld)
             if ir != s:
                 ctx.violation("C13:reader:" + classify(ld, ir, s, text).split(":", 1)[1], "Reader over %r (widths %r, %s): %s, grammar %s" % (text, list(ws), ld, ir, s),
                               dict(case, reader=ir))
+            ip = impl_path(text, ws, ld)
+            ctx.count(key=("path", text, ws, ld), nontrivial=text != "", branch="path:%s" % ld)
+            if ip != s:
+                ctx.violation("C13:path:" + classify(ld, ip, s, text).split(":", 1)[1], "fixed_rows over a file holding %r (widths %r, %s): %s, grammar %s" % (text, list(ws), ld, ip, s),
+                              dict(case, path=ip))
 
 
 def replay(ctx, case):
